@@ -25,7 +25,7 @@ type profile struct {
 	// allowPtrIface: pointers to interface-typed variables (*any, *Shape, **any)
 	allowPtrIface bool
 	pNilPtr       float64
-	pNilIface    float64
+	pNilIface     float64
 }
 
 type gen struct {
